@@ -86,7 +86,7 @@ def register(reg, prog):
     def remember_future(ex, s, rv):
         s.ghost['$future_after_await'] = ex.read_field(s, ex.spec_val(s, 'self'), '_future', Ref('FutureI'))
 
-    reg.contract(IT + '.__anext__', self_class='ObsIterator', result=ANY, properties=P,
+    reg.contract(IT + '.__anext__', self_class='ObsIterator', result=ANY, properties=P + ['C18'],     # C18: the shutdown error pushed meanwhile must not be lost
                  raises={'StopAsyncIteration': MAY, 'CancelledError': MAY, 'Exception': MAY}, modifies=['*'], at_exit=anext_exit,
                  awaits={0: {'havoc': True, 'result': ANY, 'raises': ['aiocoap.error:NotObservable', 'aiocoap.error:ObservationCancelled', 'aiocoap.error:NetworkError'],
                              'after': remember_future}})
